@@ -13,7 +13,7 @@ ids = [json.loads(l)["id"] for l in open(os.path.join(VERIF, "properties.jsonl")
 checks = []
 na = []
 for pid in ids:
-    if pid in props.PROPS and pid in mt.TEXT:
+    if pid in props.PROPS and pid in mt.TEXT and props.PROPS[pid].get("ready"):
         t = mt.TEXT[pid]
         checks.append({
             "property_id": pid,
